@@ -399,8 +399,27 @@ fn link_sites(text: &str) -> Vec<(u64, u64, String)> {
         let mut from = 0;
         while let Some(i) = line[from..].find("](") {
             let close = line[from + i..].find(')').map(|j| from + i + j);
-            // the opening bracket of this link
-            let open = line[..from + i].rfind('[');
+            // the opening bracket of this link (brackets nest: a link inside an image's text)
+            let mut depth = 0;
+            let mut open = None;
+            for (p, ch) in line[..from + i].char_indices().rev() {
+                if ch == ']' {
+                    depth += 1;
+                } else if ch == '[' {
+                    if depth == 0 {
+                        open = Some(p);
+                        break;
+                    }
+                    depth -= 1;
+                }
+            }
+            // an image is not a link to a note
+            if let (Some(o), Some(c)) = (open, close) {
+                if o > 0 && line[..o].ends_with('!') {
+                    from = c;
+                    continue;
+                }
+            }
             if let (Some(o), Some(c)) = (open, close) {
                 let url = line[from + i + 2..c].to_string();
                 let col = line[..o].encode_utf16().count() as u64 + 1;
